@@ -2437,3 +2437,52 @@ def check_kind_siblings(ck, rule, prog, file_rx=r".*", floor=0):
     if floor:
         ck.floor(rule, "groups of kind variants", n, floor, soft=True)
     return n
+
+
+# =====================================================================================================
+# NAMES: a table that maps text to the variant of an enum
+# =====================================================================================================
+def name_table(body, enum_rx, pv=None):
+    """`match text { "a" | "b" => Enum::A, ... }`: {literal: set of variant names constructed on its arm}.  The arm is what is reachable
+    from the literal's positive edge without passing another literal test (or-patterns share an arm block)."""
+    arms = string_key_arms(body, pv)
+    test_blocks = {a["call_bb"] for a in arms.values()}
+    out = {}
+    for lit, a in arms.items():
+        seen, work, vs = set(), [a["edge"][1]], set()
+        while work:
+            x = work.pop()
+            if x in seen or x in test_blocks:
+                continue
+            seen.add(x)
+            for st in body.blocks[x].stmts:
+                if st.k == "assign" and st.rv["k"] == "agg" and st.rv.get("agg") == "adt" and re.search(enum_rx, st.rv.get("adt", "")):
+                    vs.add(st.rv["variant"])
+            if vs and any(st.k == "assign" and st.rv["k"] == "agg" and re.search(enum_rx, st.rv.get("adt", "")) for st in body.blocks[x].stmts):
+                continue
+            work.extend(body.succ[x])
+        out[lit] = vs
+    return out
+
+
+def check_name_table(ck, rule, label, body, enum_rx, pv=None, floor=0):
+    """each accepted name is the lower-cased name of the variant it selects, a prefix of it, its initials, or that plus a digit suffix
+    ("dist" -> Distance, "ic" -> InformationCoefficient, "jc2" -> Jc): a swapped arm maps a name to a variant it does not name"""
+    tb = name_table(body, enum_rx, pv)
+    n = 0
+    for lit, vs in sorted(tb.items()):
+        if not vs:
+            ck.undecided(rule, "%s/%s" % (label, lit), "what the name %r selects is not recognised" % lit, where=body.where())
+            continue
+        n += 1
+        l = lit.lower()
+        def names(v):
+            low = v.lower()
+            initials = "".join(c for c in v if c.isupper()).lower()
+            base = l.rstrip("0123456789")
+            return l == low or (len(l) >= 2 and low.startswith(l)) or l == initials or base == low or base == initials
+        ok = len(vs) == 1 and names(next(iter(vs)))
+        ck.ob(rule, "%s/%s" % (label, lit), ok, "the name %r selects %s%s" % (lit, "/".join(sorted(vs)), "" if ok else ": not the variant that name stands for"), where=body.where())
+    if floor:
+        ck.floor(rule, "%s names" % label, n, floor)
+    return n
